@@ -33,7 +33,10 @@ PatternsO ==
       PAnd(<<PIns("m", <<X>>), PNot(PIns("n", <<X>>)), PIns("n", <<X>>)>>),
       PAnd(<<PIns("m", <<X, Y>>), PIns("n", <<X>>), PIns("n", <<Y>>)>>),
       PAnd(<<PIns("m", <<OLit("%r8"), X>>), PIns("n", <<X, OLit("%r8")>>)>>),
-      PAnd(<<PIns("m", <<X>>), PInsT("n", <<X>>, 2, 2)>>) }
+      PAnd(<<PIns("m", <<X>>), PInsT("n", <<X>>, 2, 2)>>),
+      \* two names that differ only in the case of a letter are different names
+      PAnd(<<PIns("m", <<X, OCap("X")>>), PIns("n", <<OCap("X"), X>>)>>),
+      PAnd(<<PIns("m", <<OCap("X")>>), PIns("n", <<X, OCap("X")>>)>>) }
 Chain == {"0x1", "0x10", "%r8", "%r8d"}
 OpsM == SeqsBetween(Chain, 1, 2)
 OpsN == SeqsBetween(Chain, 1, 2)
